@@ -92,12 +92,16 @@ impl Bank {
         self.data[seg_rng].copy_from_slice(segment.range_data());
     }
 
-    pub fn prg_header(pc: usize) -> Bank {
+    /// The two-byte load address that precedes the given bank in a PRG file (it goes to the file the bank goes to)
+    pub fn prg_header(bank: &Bank) -> Bank {
+        let pc = bank.range().start;
         debug_assert!(pc < 65536);
+        let mut options = BankOptions::new("prg_header");
+        options.filename = bank.options.filename.clone();
         Bank {
             range: 0..2,
             data: vec![(pc & 255) as u8, ((pc >> 8) & 255) as u8],
-            options: BankOptions::new("prg_header"),
+            options,
         }
     }
 }
